@@ -925,7 +925,7 @@ class FileHashStore(HashStore):
                     if self.use_multiprocessing:
                         with self.metadata_condition_mp:
                             # Wait for the pid to release if it's in use
-                            while pid in self.metadata_locked_docs_mp:
+                            while pid_doc in self.metadata_locked_docs_mp:
                                 self.fhs_logger.debug(sync_wait_msg)
                                 self.metadata_condition_mp.wait()
                             # Modify metadata_locked_docs consecutively
@@ -933,7 +933,7 @@ class FileHashStore(HashStore):
                             self.metadata_locked_docs_mp.append(pid_doc)
                     else:
                         with self.metadata_condition_th:
-                            while pid in self.metadata_locked_docs_th:
+                            while pid_doc in self.metadata_locked_docs_th:
                                 self.fhs_logger.debug(sync_wait_msg)
                                 self.metadata_condition_th.wait()
                             self.fhs_logger.debug(sync_begin_debug_msg)
@@ -941,6 +941,11 @@ class FileHashStore(HashStore):
                     try:
                         # Mark metadata doc for deletion
                         objects_to_delete.append(self._rename_path_for_deletion(path))
+                    except FileNotFoundError:
+                        # The document has already been deleted by another request
+                        self.fhs_logger.debug(
+                            "Metadata doc already deleted for pid: %s, doc: %s", pid, pid_doc
+                        )
                     finally:
                         # Release pid
                         end_sync_debug_msg = (
@@ -977,7 +982,7 @@ class FileHashStore(HashStore):
             if self.use_multiprocessing:
                 with self.metadata_condition_mp:
                     # Wait for the pid to release if it's in use
-                    while pid in self.metadata_locked_docs_mp:
+                    while pid_doc in self.metadata_locked_docs_mp:
                         self.fhs_logger.debug(sync_wait_msg)
                         self.metadata_condition_mp.wait()
                     # Modify metadata_locked_docs consecutively
@@ -985,7 +990,7 @@ class FileHashStore(HashStore):
                     self.metadata_locked_docs_mp.append(pid_doc)
             else:
                 with self.metadata_condition_th:
-                    while pid in self.metadata_locked_docs_th:
+                    while pid_doc in self.metadata_locked_docs_th:
                         self.fhs_logger.debug(sync_wait_msg)
                         self.metadata_condition_th.wait()
                     self.fhs_logger.debug(sync_begin_debug_msg)
